@@ -68,6 +68,35 @@ CHECKS = [
              "block, single-byte corruption at every offset and an I/O error at every refill index, and each run is validated by TLC.",
      "note": TLC_NOTE,
      "technique": "abstract reader property as a TLA+ trace spec; exhaustive fault enumeration over real files (every offset / refill index), each run trace-validated by TLC"},
+    {"property_id": "C07", "level": "model_checking", "design_ref": "DESIGN.md §6 C07",
+     "text": "Name resolution is specified in TLA+ from the Avro specification's wording (SchemaDesc!Resolve: dotted name > namespace attribute incl. \"\" > "
+             "enclosing namespace, inheritance through records / arrays / maps / unions, definition before or after use, duplicate / unknown / missing-attribute / "
+             "unconditional-cycle errors). Spellings of target schemas (namespace arrangements, forward references, lexical styles, extra attributes) and "
+             "invalid mutations are parsed by the real parser, and TLC compares Resolve(doc) with the canonical description of the parsed node vector.",
+     "note": TLC_NOTE, "technique": "TLA+ spec of name resolution; documents generated as ASTs, parsed by the real parser, every parse event trace-validated by TLC"},
+    {"property_id": "C08", "level": "model_checking", "design_ref": "DESIGN.md §6 C08",
+     "text": "Crc.tla gives CRC-64-AVRO bit-serially (the definition) and table-driven; TLC proves them equal on a GF(2) basis of (state, byte) plus linearity of "
+             "the table (hence on all 2^64 x 256 pairs) and checks the specification's worked example; the same pairs are replayed on the implementation's step "
+             "through a hook. For every spelling of every target schema, all TLC-enumerated node vectors and random trees, TLC recomputes Pcf and its checksum and "
+             "compares with the reported fingerprint and canonical form text.",
+     "note": TLC_NOTE, "technique": "TLA+ spec of PCF + CRC-64-AVRO with basis/linearity theorems checked by TLC; fingerprints of real schemas trace-validated by TLC"},
+    {"property_id": "C09", "level": "model_checking", "design_ref": "DESIGN.md §6 C09",
+     "text": "For parsed documents the schema's own JSON must be the source minified with every key kept and parse back to Resolve(doc); for ALL TLC-enumerated "
+             "node vectors (<= 2/3 nodes, arbitrary keys: sharing, named cycles, every namespace relation), random trees and parsed-then-edited schemas the "
+             "regenerated JSON must parse back to the same canonical description with the same fingerprint; unnamed cycles must fail. Judged by TLC (Trace_Schema).",
+     "note": TLC_NOTE, "technique": "TLA+ canonical description (GraphDesc) + exhaustive small node vectors enumerated by TLC, rendered and re-parsed by the real code, trace-validated by TLC"},
+    {"property_id": "C18", "level": "model_checking", "design_ref": "DESIGN.md §6 C18",
+     "text": "Every single-object serialization / deserialization event of the drivers (random values of the schema scope; slice and chunked readers; trailing "
+             "garbage; truncation at every header length; every header byte corrupted; the same message under schemas with a different canonical form) is "
+             "validated by TLC against C3 01 ++ LE(CRC-64-AVRO(Pcf(schema))) ++ Enc(value) and the header-check rules.",
+     "note": TLC_NOTE, "technique": "TLA+ spec of the single-object format (Pcf + Crc + AvroBinary); real encode/decode events trace-validated by TLC"},
+    {"property_id": "C19", "level": "model_checking", "design_ref": "DESIGN.md §6 C19",
+     "text": "TLC enumerates ALL node vectors of <= 2 (3 thorough) nodes with arbitrary keys and classifies them with a terminating traversal (ok / unnamed "
+             "cycle / dangling / empty); fingerprint, JSON rendering and freeze are run on each in separate child-process commands (a stack overflow is an "
+             "observation) and validated by TLC; frozen schemas are probed (Debug, serialize, decode short inputs). Plus random vectors with odd names and "
+             "logical types, deep chains, mutated schema texts, every JSON value shape at every attribute, deep nesting, megabyte names.",
+     "note": TLC_NOTE + " 'Never a crash' is observed through process exit status (8 MiB stack).",
+     "technique": "exhaustive node-vector enumeration by TLC with a TLA+ classification, replayed in child processes; answers trace-validated by TLC"},
     {"property_id": "C11", "level": "model_checking", "design_ref": "DESIGN.md §6 C11",
      "text": "TLC checks on all byte strings (7-byte alphabet, length <= 5) x every first-refill length x {i32,i64,u32,u64} that the buffered reader's "
              "varint fast path / byte-wise fallback and read_slice agree with the slice reader (BufReadModel.tla; the as-found 5-byte fallback cap is "
